@@ -6,6 +6,7 @@ import (
 	"encoding/json"
 	"fmt"
 	"io"
+	"math"
 	"sync"
 
 	"github.com/ipfs/go-cid"
@@ -119,7 +120,9 @@ func c04Alphabet(L, chunk int, readers int) []rsop {
 	}
 	l := int64(L)
 	ck := int64(chunk)
-	starts := []int64{-1, 0, 1, l - 1, l, l + 1}
+	// incl. the extreme offsets: the most negative one (its negation overflows)
+	// and the largest (a relative seek from there wraps around)
+	starts := []int64{-1, 0, 1, l - 1, l, l + 1, math.MinInt64, math.MaxInt64}
 	for b := ck; b < l; b += ck {
 		starts = append(starts, b-1, b, b+1)
 	}
@@ -130,10 +133,10 @@ func c04Alphabet(L, chunk int, readers int) []rsop {
 		for _, o := range set(starts) {
 			ops = append(ops, rsop{R: r, Kind: "seek", A: o, Whence: io.SeekStart})
 		}
-		for _, d := range set([]int64{-(l + 1), -1, 0, 1, ck}) {
+		for _, d := range set([]int64{-(l + 1), -1, 0, 1, ck, math.MinInt64, math.MaxInt64}) {
 			ops = append(ops, rsop{R: r, Kind: "seek", A: d, Whence: io.SeekCurrent})
 		}
-		for _, o := range set([]int64{-(l + 1), -l, -1, 0, 1}) {
+		for _, o := range set([]int64{-(l + 1), -l, -1, 0, 1, math.MinInt64, math.MaxInt64}) {
 			ops = append(ops, rsop{R: r, Kind: "seek", A: o, Whence: io.SeekEnd})
 		}
 	}
